@@ -89,7 +89,9 @@ const C18_LANGS: [&str; 4] = ["de", "es", "fr", "it"];
 pub fn h_c18_reenter_other_languages() {
     let (mut model, r, c, cell) = menu_cell_model(false);
     let l = any_usize_to(C18_LANGS.len() - 1);
-    if model.set_language(C18_LANGS[l]).is_err() { check("C18.reenter_languages.language_accepted", false); return; }
+    let accepted = model.set_language(C18_LANGS[l]).is_ok();
+    check("C18.reenter_languages.language_accepted", accepted);
+    if !accepted { return; }
     let shown = match model.get_localized_cell_content(0, r, c) { Ok(s) => s, Err(_) => { check("C18.reenter_languages.cell_reproduced", false); return; } };
     let ok = model.set_user_input(0, r, c, shown.clone()).is_ok();
     let same = match (&cell, cell_at(&model, r, c)) {
